@@ -4,8 +4,8 @@
   What is PROVED here (about `OdfModel.Entity` + the regenerated inventory `Generated.ParseSites`):
     * the dispatch: every parser any reading entry point can hand any member to — for every object path —
       is constructed by `defusedxml` (`reach_all_defused`, `all_defused`, `load_parametric`);
-    * the hand-written walk of each entry point only opens members the inventory knows about
-      (`readOrder_sound`);
+    * the hand-written walk of each entry point (for `load`: every chain of listed `Object <digits>/` folders, any
+      depth, any name length) only opens members the inventory knows about (`readOrder_sound`, `objFolders_listed`);
     * UNDER THE ASSUMED parser behaviour (`ParserBehaviour`: defusedxml raises on an entity declaration; its
       SAX reader raises on an external subset) a package with an entity-declaring member that the entry point
       reads makes the call fail, with `EntitiesForbidden` when that member is the only faulty one, and with
@@ -126,6 +126,43 @@ theorem mem_loadParts (p : Pkg) (obj : Str) (m : Member) (h : m ∈ loadParts p 
   have h1 := (List.mem_filter.mp h).1
   simp only [List.map_cons, List.map_nil, List.mem_cons, List.not_mem_nil, or_false] at h1
   rcases h1 with h1 | h1 | h1 | h1 <;> subst h1 <;> simp
+
+theorem chain_listed (man : List Str) (e : Str) (fuel : Nat) (op : Str) :
+    ∀ f ∈ chain man e fuel op, man.contains f = true := by
+  induction fuel generalizing op with
+  | zero => intro f hf; simp [chain] at hf
+  | succ n ih =>
+    intro f hf
+    unfold chain at hf
+    split at hf
+    · cases hf
+    · rename_i seg _
+      split at hf
+      · rename_i hc
+        rcases List.mem_cons.mp hf with h | h
+        · rw [h]; exact hc
+        · exact ih _ f h
+      · cases hf
+
+/-- every sub-document folder `load` descends into is itself listed in the manifest -/
+theorem objFolders_listed (man : List Str) : ∀ f ∈ objFolders man, man.contains f = true := by
+  intro f hf
+  unfold objFolders at hf
+  rw [List.mem_eraseDups] at hf
+  obtain ⟨e, _, he⟩ := List.mem_flatMap.mp hf
+  exact chain_listed man e _ _ f he
+
+/-- `Object <digits>/` as code points -/
+def objName (digits : Str) : Str := [79, 98, 106, 101, 99, 116, 32] ++ digits ++ [47]
+
+/-- the dispatch of 0372084 on an example: a nested folder and a long-named folder ARE sub-documents, a nested
+    folder whose parent is not listed is not -/
+example :
+    objFolders [objName [49], objName [49] ++ Part.content.file, objName [49] ++ objName [50],
+                objName [49] ++ objName [50] ++ objName [51, 51], objName [49, 48, 48],
+                objName [53] ++ objName [54], [112, 47]]
+      = [objName [49], objName [49] ++ objName [50], objName [49] ++ objName [50] ++ objName [51, 51], objName [49, 48, 48]] := by
+  decide
 
 /-- **C13 (walk ⊆ inventory)**: every member the model says an entry point opens flows, according to the
     regenerated inventory, into a parser reached from that entry point. -/
@@ -393,6 +430,19 @@ example (B : ParserBehaviour) :
   apply refuses_explicit_partial B .load _ ⟨[79, 98, 106, 101, 99, 116, 32, 49, 47], .content⟩ ⟨true, false⟩
   · decide
   · decide
+  · rfl
+  · unfold OthersClean; decide
+
+/-- `Object 1/Object 2/styles.xml` (nested) names an external subset: every load-like entry point refuses -/
+example (B : ParserBehaviour) :
+    read B .xhtmlOdf2xhtml
+      { files := [(Part.manifest.file, XmlMember.clean), (objName [49] ++ objName [50] ++ Part.styles.file, ⟨false, true⟩)],
+        manifest := [objName [49], objName [49] ++ objName [50], objName [49] ++ objName [50] ++ Part.styles.file] }
+      = .error .externalReferenceForbidden := by
+  apply refuses_external_subset_partial B .xhtmlOdf2xhtml _ ⟨objName [49] ++ objName [50], .styles⟩ ⟨false, true⟩
+  · decide
+  · decide
+  · rfl
   · rfl
   · unfold OthersClean; decide
 
